@@ -45,14 +45,9 @@ Proof. exact phi_arguments_available. Qed.
 Print Assumptions C06_phi_arguments_available.
 
 (* `constant branch condition`: a condition claimed always true (false) never evaluates to false (true) *)
-Theorem C06_constant_condition_claim_true : forall p c s0 s e v (b : bool),
-  prime p -> 2 < p -> Z.log2 p < 2 ^ 64 ->
-  vjust_cfg p c = true ->
-  init_ok (all_stmts (c_blocks c)) p s0 -> reachable (all_stmts (c_blocks c)) p s0 s ->
-  occurs_in c e -> evalR p s e v -> expr_val e = Some (VBool b) ->
-  (v <> 0 <-> b = true).
-Proof. exact constant_condition_claim_true. Qed.
-Print Assumptions C06_constant_condition_claim_true.
+(* third audit: the corollary `constant_condition_claim_true` (claim_ok unfolded for a Boolean claim:
+   v <> 0 <-> b = true) is no longer an obligation - it restates C06_validated_graph_claims_true; the statement
+   about the FINDING is C06_constant_condition_finding_true below. Lemma Proofs.*.constant_condition_claim_true stays. *)
 
 (* THE FINDING ITSELF (CS0009, constant_conditional.rs, mirrored by Model.ConstCond and
    compared with the real pass, label text included, on every explored definition; that
@@ -71,13 +66,8 @@ Theorem C06_constant_condition_finding_true : forall p c s0 s bi i b,
 Proof. exact constant_condition_finding_true. Qed.
 Print Assumptions C06_constant_condition_finding_true.
 (* Num2Bits/Bits2Num: a size claimed to be a constant below a bound is below it *)
-Theorem C06_size_claim_true : forall p c s0 s e v z bound,
-  prime p -> 2 < p -> Z.log2 p < 2 ^ 64 ->
-  vjust_cfg p c = true ->
-  init_ok (all_stmts (c_blocks c)) p s0 -> reachable (all_stmts (c_blocks c)) p s0 s ->
-  occurs_in c e -> evalR p s e v -> expr_val e = Some (VField z) -> z < bound -> v < bound.
-Proof. exact size_claim_true. Qed.
-Print Assumptions C06_size_claim_true.
+(* third audit: `size_claim_true` (v = z and z < bound give v < bound) is no longer an obligation: it is claim_ok
+   unfolded for a field claim and says nothing about the Num2Bits pass; the threshold itself is C11's. *)
 
 (* operator level: the table of expression_impl.rs over field elements *)
 Theorem C06_infix_field_sound : forall p, prime p -> 2 < p -> Z.log2 p < 2 ^ 64 ->
@@ -92,6 +82,14 @@ Theorem C06_infix_bool_sound : forall p op (x y : bool) c v,
   sem_infix op (b2z x) (b2z y) p v -> claim_ok c v.
 Proof. exact infix_bool_sound. Qed.
 Print Assumptions C06_infix_bool_sound.
+
+(* prefix operators (-, !, ~) at operator level (third audit: no theorem covered them on their own): whatever
+   prefix_values attaches to `op x`, for an operand whose claim is true, is the value Circom's semantics gives *)
+Theorem C06_prefix_sound : forall p, 2 < p -> Z.log2 p < 2 ^ 64 ->
+  forall op cl a c v, 0 <= a < p -> claim_ok cl a ->
+  prefix_values op (Some cl) p = Some c -> sem_prefix op a p v -> claim_ok c v.
+Proof. exact prefix_sound. Qed.
+Print Assumptions C06_prefix_sound.
 
 (* the step relation keeps every defined cell consistent with the claims about it *)
 Theorem C06_step_preserves : forall p, prime p -> 2 < p -> Z.log2 p < 2 ^ 64 ->
